@@ -24,7 +24,7 @@ use vh::layermodel::*;
 use vh::report::{Args, Reporter};
 use vh::snapshot::{Node, Scratch, Snapshot};
 
-pub const NAMES: [&str; 2] = ["a", "b"];
+pub const NAMES: [&str; 2] = ["a.b", "a"];
 const C_KEEP: u32 = 11;
 const C_DEL: u32 = 22;
 const C_INV: u32 = 33;
